@@ -1,6 +1,7 @@
 //! Independent reference components (no dependency on quandary).
 pub mod name;
 pub mod rdata;
+pub mod resolve;
 pub mod tsig;
 pub mod wire;
 pub mod zone;
